@@ -398,7 +398,7 @@ func okStr(s string) string {
 	return "ok " + s
 }
 
-func (r *runner) minConfs() []int64 { return []int64{0, 1, 2, 6, r.mat - 1, r.mat, r.mat + 1} }
+func (r *runner) minConfs() []int64       { return []int64{0, 1, 2, 6, r.mat - 1, r.mat, r.mat + 1} }
 func (r *runner) syncs(top int64) []int64 { return []int64{top, top + 1, top + r.mat} }
 
 type probeRes struct {
